@@ -408,7 +408,12 @@ class _SG:
               '%s.%s%d' % (self.scope, o, k),
               '%s/%s_%d;' % (self.scope, o, k)][style]
     if self.cfg.get('collide_names') and self.tensors and d(st.integers(0, 39)) == 0:
-      other = d(st.sampled_from([t['name'] for t in self.tensors]))
+      pool = [t['name'] for t in self.tensors]
+      if self.si and d(st.booleans()):
+        # ... or like a tensor of an earlier subgraph (what gets inserted there
+        # must not rename anything here)
+        pool = [t['name'] for (_, ts) in self.cfg['_all_tensors']() for t in ts] or pool
+      other = d(st.sampled_from(pool))
       base = other + d(st.sampled_from(['_dequant', '_quantized']))
     return self.names.fresh(base)
 
@@ -464,6 +469,9 @@ class _SG:
         t['share'] = d(st.sampled_from(cands))
         src = self.cfg['_tensor'](t['share'])
         t['data'] = copy.deepcopy(src['data'])
+        if self.cfg.get('same_name_sharers') and t['share'][0] != self.si and d(st.integers(0, 2)) == 0:
+          # the tied weight carries the same name in both functions
+          t['name'] = src['name']
     self.tensors.append(t)
     return len(self.tensors) - 1
 
@@ -505,6 +513,7 @@ def _applicable(g, x, cfg):
   if r == 2:
     add('SVDF', 2)   # stateful; only when a check lists it explicitly
   add('GATE', 2)     # GREATER + SELECT (a BOOL tensor); only when listed explicitly
+  add('CONSTVIEW', 2)  # RESHAPE/TRANSPOSE of a float constant; only when listed explicitly
   if r == 4:
     add('CONV_2D', 2)
     add('DEPTHWISE_CONV_2D', 2)
@@ -577,9 +586,35 @@ def _apply(g, op, x, cfg):
                       'kind': 'act', 'rng': None})
     mask = len(g.tensors) - 1
     g.node('GREATER', [x, thr], [mask], {})
+    if cfg.get('gate_views', True) and d(st.integers(0, 2)) == 0:
+      # the BOOL mask passes through data-movement ops (flattened and restored)
+      n_el = int(np.prod(shape))
+      for new_shape in ([n_el], list(shape)):
+        g.tensors.append({'name': g._name('act', 'RESHAPE'), 'shape': list(new_shape), 'dtype': 'bool',
+                          'kind': 'act', 'rng': None})
+        nxt = len(g.tensors) - 1
+        g.node('RESHAPE', [mask, g.const_i(new_shape, 'RESHAPE')], [nxt], {'newShape': list(new_shape)})
+        mask = nxt
     other = g.const_f(shape, 1, 'SELECT', role='e')
     y = g.new_act(shape, 'SELECT')
     g.node('SELECT', [mask, x, other], [y], {})
+  elif op == 'CONSTVIEW':
+    # y = x (+|*) view(c): a float constant is the *data* operand of a
+    # data-movement op (a transposed / reshaped table, as tied embeddings give)
+    if r >= 2 and d(st.booleans()):
+      perm = list(d(st.permutations(list(range(r)))))
+      cshape = [0] * r
+      for i, pp in enumerate(perm):
+        cshape[pp] = shape[i]
+      c = g.const_f(cshape, 1, 'TRANSPOSE', role='e')
+      v = g.new_act(shape, 'TRANSPOSE')
+      g.node('TRANSPOSE', [c, g.const_i(perm, 'TRANSPOSE')], [v], {})
+    else:
+      c = g.const_f([int(np.prod(shape))], 1, 'RESHAPE', role='e')
+      v = g.new_act(shape, 'RESHAPE')
+      g.node('RESHAPE', [c, g.const_i(shape, 'RESHAPE')], [v], {'newShape': list(shape)})
+    y = g.new_act(shape, 'ADD')
+    g.node(d(st.sampled_from(['ADD', 'MUL'])), [x, v], [y], {'fusedActivationFunction': 0})
   elif op == 'SVDF':
     # stateful: the last operand is a variable tensor the kernel shifts and
     # rewrites on every invocation (reset_all_variables() zeroes it)
